@@ -148,6 +148,7 @@ type judge struct {
 	served []string       // pins of the leaves seen in handshakes
 	bad    int            // violations recorded by this judge
 	class  string         // when set: the phase this judge works in (names key and counter instead of the site)
+	chain  *chainCache    // when set: the listener was started on this harness-made chain cache (counters and witnesses only)
 }
 
 const classChanged = "cache-changed-under-listener"
@@ -155,6 +156,10 @@ const classChanged = "cache-changed-under-listener"
 func (j *judge) witness(extra map[string]any) map[string]any {
 	j.bad++
 	w := map[string]any{"served_pins": j.served}
+	if j.chain != nil {
+		w["cache_made_by_harness"] = j.chain.Spec
+		w["pins_of_the_cache_files_cert_section_in_file_order"] = j.chain.Pins
+	}
 	for k, v := range j.ctx {
 		w[k] = v
 	}
@@ -172,6 +177,9 @@ func (j *judge) fp(site, fp, where string) bool {
 		cls = j.class
 	}
 	j.r.Count("fingerprints_compared:"+cls, 1)
+	if j.chain != nil {
+		j.r.Count("fingerprints_compared_on_chain_cache", 1)
+	}
 	if !validPin(fp) {
 		ok = false
 		j.r.Violate(j.eng, j.idx, "fp-not-base64-sha256", fmt.Sprintf("%s shows a fingerprint %q that is not standard base64 of 32 bytes: %q", site, fp, where), j.witness(map[string]any{"site": site, "shown": where}))
@@ -503,6 +511,9 @@ func (j *judge) handshake(addr, sni string) (string, error) {
 	}
 	p := hk.Pin(c.Chain[0])
 	j.r.Count("handshakes", 1)
+	if len(c.Chain) > 1 {
+		j.r.Count("handshakes_presenting_issuer_certificates", 1)
+	}
 	for _, q := range j.served {
 		if q == p {
 			return p, nil
@@ -640,6 +651,9 @@ func (j *judge) curlChecks(work string, ols []oneLiner, mainHost, bound string, 
 		switch {
 		case res.Exit == 0:
 			j.r.Count("curl_pinned_ok", 1)
+			if j.chain != nil {
+				j.r.Count("curl_pinned_ok_on_chain_cache", 1)
+			}
 			if ol.Path == "/c" && res.HTTPCode != "200" {
 				j.r.Inconclusive(fmt.Sprintf("curl on %q connected but got HTTP %s", ol.Text, res.HTTPCode))
 			}
@@ -662,6 +676,9 @@ func (j *judge) curlChecks(work string, ols []oneLiner, mainHost, bound string, 
 			switch res.Exit {
 			case 90:
 				j.r.Count("curl_altered_rejected", 1)
+				if j.chain != nil {
+					j.r.Count("curl_altered_rejected_on_chain_cache", 1)
+				}
 			case 0:
 				j.r.Violate(j.eng, j.idx, "curl-altered-pin-accepted", fmt.Sprintf("real curl with the pin altered in one character (sha256//%s instead of sha256//%s) connects to %s", alt, ol.FP, ol.Addr), j.witness(map[string]any{"oneliner": ol, "curl": res}))
 			default:
@@ -734,19 +751,32 @@ func (j *judge) scriptsPick(target, boundHostPort string, custom bool, rng *rand
 // the key it presents now - to clients without and with SNI.  The listener may
 // keep its key or pick up the new one; what it advertises must be what it
 // serves.
-func (j *judge) afterCacheChange(cache string, hosts []string, bound, target string, advertised []fpOcc, custom bool, rng *rand.Rand, more func(j2 *judge)) (newPin string, ok bool) {
-	newPin, err := writeCache(cache, "valid")
+func (j *judge) afterCacheChange(cache string, hosts []string, bound, target string, advertised []fpOcc, custom bool, rng *rand.Rand, repl *chainSpec, more func(j2 *judge)) (newPin string, newChain *chainCache, ok bool) {
+	var err error
+	if repl != nil {
+		// the other program installs a chain from a CA
+		if newChain, err = writeChainCache(j.r, cache, *repl); err == nil {
+			newPin = newChain.Pins[0]
+		}
+	} else {
+		newPin, err = writeCache(cache, "valid")
+	}
 	if err != nil {
 		j.r.Inconclusive(fmt.Sprintf("%s %d: cannot replace the cache %s: %v", j.eng, j.idx, cache, err))
-		return "", false
+		return "", nil, false
 	}
-	j2 := &judge{r: j.r, eng: j.eng, idx: j.idx, class: classChanged, ctx: map[string]any{}}
+	j2 := &judge{r: j.r, eng: j.eng, idx: j.idx, class: classChanged, chain: j.chain, ctx: map[string]any{}}
 	for k, v := range j.ctx {
 		j2.ctx[k] = v
 	}
 	j2.ctx["phase"] = "the cache file was replaced by a different valid certificate and key while the listener was running"
 	j2.ctx["cache_file"] = cache
 	j2.ctx["cache_now_holds_pin"] = newPin
+	if newChain != nil {
+		j2.ctx["phase"] = "the cache file was replaced by a different valid certificate chain (leaf first, then its issuers) and the leaf's key while the listener was running"
+		j2.ctx["cache_now_holds"] = newChain.Spec
+		j2.ctx["cache_now_holds_cert_section_pins"] = newChain.Pins
+	}
 	j2.ctx["served_before_the_change"] = append([]string(nil), j.served...)
 	plain, withSNI := 0, 0
 	for _, h := range hosts {
@@ -763,9 +793,12 @@ func (j *judge) afterCacheChange(cache string, hosts []string, bound, target str
 	}
 	if plain == 0 || withSNI == 0 {
 		j.r.Inconclusive(fmt.Sprintf("%s %d: after the cache change %d handshakes without and %d with SNI succeeded", j.eng, j.idx, plain, withSNI))
-		return newPin, false
+		return newPin, newChain, false
 	}
 	j.r.Count("cache_changed_under_listener_cases", 1)
+	if newChain != nil {
+		j.r.Count("cache_replaced_by_chain_cache_under_listener", 1)
+	}
 	j.r.Count("handshakes_without_sni_after_change", int64(plain))
 	j.r.Count("handshakes_with_sni_after_change", int64(withSNI))
 	for _, f := range advertised {
@@ -785,7 +818,7 @@ func (j *judge) afterCacheChange(cache string, hosts []string, bound, target str
 	}
 	j.bad += j2.bad
 	j.r.Sample(j.eng+":"+classChanged, map[string]any{"index": j.idx, "context": j2.ctx, "served_after_the_change": j2.served, "advertised": len(advertised)})
-	return newPin, true
+	return newPin, newChain, true
 }
 
 // ---- engine "binary" ---------------------------------------------------------------------
@@ -804,6 +837,34 @@ type binCase struct {
 	Scripts int      `json:"script_fetches"`
 	Real    bool     `json:"real_shell"` // also run a printed one-liner verbatim under /bin/sh
 	Rot     int      `json:"port_443_rotation,omitempty"`
+	// cache forms chain-file / chain-default-path: the cache is made by the harness before the first run
+	Chain *chainSpec `json:"cache_made_by_harness,omitempty"`
+	Repl  *chainSpec `json:"cache_replaced_under_last_run_by,omitempty"`
+}
+
+// genBinChainCase: the real binary, 2-3 runs on a harness-made chain cache (at
+// an explicit path or at the default path under the private HOME); under the
+// last run the cache is replaced by another chain.
+func genBinChainCase(r *mon.Run, i int) binCase {
+	rng := r.Rng("binchaincfg", i)
+	c := binCase{
+		Cache:  []string{cacheChainFile, cacheChainFile, cacheChainDefault}[i%3],
+		CBForm: cbForms[rng.IntN(len(cbForms))],
+		FDir:   fdirForms[rng.IntN(len(fdirForms))],
+		IPv6:   rng.IntN(2) == 0,
+		Tmpl:   []string{"default", "default", "custom"}[rng.IntN(3)],
+		NoTS:   rng.IntN(4) == 0,
+		Shells: 1, Scripts: 2, Runs: 2 + i%2,
+		Real: i%2 == 1,
+	}
+	c.CBs = cbAddrs(c.CBForm, rng)
+	for k := 0; k < c.Runs; k++ {
+		c.Forms = append(c.Forms, listenForms[(i+3*k)%len(listenForms)])
+	}
+	// binary cases take the specs the in-process cases of the same index do not
+	ch, rp := genChainSpec(i+1, rng), genChainSpec(i+2, rng)
+	c.Chain, c.Repl = &ch, &rp
+	return c
 }
 
 // genBin443Case: the real binary on the default https port.
@@ -853,7 +914,7 @@ func binCacheFile(c binCase, home, cachePath string) string {
 	switch c.Cache {
 	case "off":
 		return ""
-	case "default-path":
+	case "default-path", cacheChainDefault:
 		return filepath.Join(home, ".cache", sstls.CertCacheDir, sstls.CertCacheFile)
 	}
 	return cachePath
@@ -874,13 +935,24 @@ func binCaseRun(r *mon.Run, eng, bin string, fx fixtures, i int, c binCase) {
 	os.MkdirAll(home, 0o755)
 	cachePath := filepath.Join(caseDir, "cache", "cert.txtar")
 	var outs []runOutcome
+	var cc *chainCache
+	if c.Chain != nil {
+		var err error
+		if cc, err = writeChainCache(r, binCacheFile(c, home, cachePath), *c.Chain); err != nil {
+			r.Inconclusive(fmt.Sprintf("%s %d: cannot prepare the chain cache %v: %v", eng, i, *c.Chain, err))
+			return
+		}
+	}
 	for k := 0; k < c.Runs; k++ {
 		light := c.Cache == "existing" && k == 0
-		o := binOneRun(r, eng, bin, fx, i, k, c, home, cachePath, light, k == c.Runs-1)
+		o := binOneRun(r, eng, bin, fx, i, k, c, cc, home, cachePath, light, k == c.Runs-1)
 		if !o.ok {
 			break
 		}
 		outs = append(outs, o)
+		if cc != nil {
+			chainStarted(r, eng, cc, o.pin, k > 0)
+		}
 		r.Eval(1) // every start of the binary is one evaluated case (same granularity as Distinct)
 	}
 	if len(outs) >= 2 {
@@ -894,7 +966,7 @@ func binCaseRun(r *mon.Run, eng, bin string, fx fixtures, i int, c binCase) {
 	}
 }
 
-func binOneRun(r *mon.Run, eng, bin string, fx fixtures, i, k int, c binCase, home, cachePath string, light, last bool) (out runOutcome) {
+func binOneRun(r *mon.Run, eng, bin string, fx fixtures, i, k int, c binCase, cc *chainCache, home, cachePath string, light, last bool) (out runOutcome) {
 	rng := r.Rng("run", i*16+k)
 	if eng != engBin {
 		rng = r.Rng(eng+"run", i*16+k)
@@ -936,7 +1008,7 @@ func binOneRun(r *mon.Run, eng, bin string, fx fixtures, i, k int, c binCase, ho
 		switch c.Cache {
 		case "off":
 			groups = append(groups, []string{"-tls-certificate-cache", ""})
-		case "default-path":
+		case "default-path", cacheChainDefault:
 		default:
 			groups = append(groups, []string{"-tls-certificate-cache", cachePath})
 		}
@@ -1001,6 +1073,13 @@ func binOneRun(r *mon.Run, eng, bin string, fx fixtures, i, k int, c binCase, ho
 			r.Count("fixed_port_taken_retry", 1)
 			continue
 		}
+		if cc != nil && strings.Contains(err.Error(), "Error setting up HTTPS service") && strings.Contains(err.Error(), "certificate") {
+			// the program does not take this cache: it need not (counted); only runs that start are judged
+			r.Count("chain_cache_rejected_at_start_up", 1)
+			r.Count("chain_cache_rejected_at_start_up:"+cc.Spec.String(), 1)
+			r.Logf("%s %d run %d: chain cache %v refused: %v", eng, i, k, cc.Spec, err)
+			return
+		}
 		if strings.Contains(err.Error(), "Error setting up HTTPS service") {
 			// the program refuses this form: not this property's business
 			r.Count("config_rejected_by_program:"+form, 1)
@@ -1022,7 +1101,7 @@ func binOneRun(r *mon.Run, eng, bin string, fx fixtures, i, k int, c binCase, ho
 	r.Count("config_files:"+c.FDir, 1)
 	r.Count("config_template:"+c.Tmpl, 1)
 
-	j := &judge{r: r, eng: eng, idx: i, ctx: map[string]any{"config": c, "run": k, "args": args, "listening_on": s.Addr}}
+	j := &judge{r: r, eng: eng, idx: i, chain: cc, ctx: map[string]any{"config": c, "run": k, "args": args, "listening_on": s.Addr}}
 	term := func() string { return s.P.Clean() }
 	waitBlock := func(from int) (int, bool) {
 		loc, ok := s.Wait(`To get a shell:`, from, crs.Bound)
@@ -1228,7 +1307,7 @@ func binOneRun(r *mon.Run, eng, bin string, fx fixtures, i, k int, c binCase, ho
 		} else {
 			all := parseOperatorText(term(), 0).FPs
 			from := s.P.CleanLen()
-			j.afterCacheChange(cf, hosts, bound, target, all, c.Tmpl == "custom", rng, func(j2 *judge) {
+			j.afterCacheChange(cf, hosts, bound, target, all, c.Tmpl == "custom", rng, c.Repl, func(j2 *judge) {
 				// real curl, run as printed, on a one-liner that names a host (curl sends SNI for names only)
 				for _, ol := range sh.OneLiners {
 					h, p, printed := splitAddr(ol.Addr)
@@ -1285,11 +1364,34 @@ type inCase struct {
 	FDir     string   `json:"serve_files_from"`
 	IPv6     bool     `json:"ipv6_one_liners"`
 	Tmpl     string   `json:"template"`
-	Cache    string   `json:"cache"` // off | file | expired-file | notyet-file | shared-empty
+	Cache    string   `json:"cache"` // off | file | expired-file | notyet-file | shared-empty | chain-file
 	Starts   int      `json:"starts"`
 	Shell    bool     `json:"shell_cycle"`
 	ChangeAt int      `json:"cache_replaced_during_start"` // -1: never
 	Rot      int      `json:"port_443_rotation,omitempty"`
+	// cache form chain-file: the cache is made by the harness before the first start
+	Chain *chainSpec `json:"cache_made_by_harness,omitempty"`
+	Repl  *chainSpec `json:"cache_replaced_during_start_by,omitempty"`
+}
+
+// genInChainCase: 2-4 starts on a harness-made chain cache; during one of them
+// the cache is replaced by another chain, which the later starts then load.
+func genInChainCase(r *mon.Run, i int) inCase {
+	rng := r.Rng("inchaincfg", i)
+	c := inCase{
+		Form:  inprocForms[i%len(inprocForms)],
+		CBs:   cbAddrs(cbForms[rng.IntN(len(cbForms))], rng),
+		FDir:  fdirForms[rng.IntN(len(fdirForms))],
+		IPv6:  rng.IntN(2) == 0,
+		Tmpl:  []string{"default", "default", "custom"}[rng.IntN(3)],
+		Cache: cacheChainFile,
+		Shell: rng.IntN(3) == 0,
+	}
+	c.Starts = 2 + rng.IntN(3)
+	c.ChangeAt = rng.IntN(c.Starts)
+	ch, rp := genChainSpec(i, rng), genChainSpec(i+3, rng)
+	c.Chain, c.Repl = &ch, &rp
+	return c
 }
 
 func genInCase(r *mon.Run, i int) inCase {
@@ -1338,6 +1440,12 @@ func gen443Case(r *mon.Run, i int) inCase {
 // inStart starts the in-process server of one start of a case.  For the
 // port-443 form the caller holds mu443.
 func inStart(r *mon.Run, eng string, i int, c inCase, cache string, fx fixtures, rng *rand.Rand) (*hk.Server, bool) {
+	s, ok, _ := inStartE(r, eng, i, c, cache, fx, rng)
+	return s, ok
+}
+
+// inStartE is inStart that also hands out the program's refusal, if any.
+func inStartE(r *mon.Run, eng string, i int, c inCase, cache string, fx fixtures, rng *rand.Rand) (*hk.Server, bool, error) {
 	cfg := hk.Config{FDir: fx.fdir(c.FDir), CertFile: cache, CBAddrs: c.CBs, PrintIPv6: c.IPv6}
 	if c.Tmpl == "custom" {
 		cfg.TmplF = fx.custom
@@ -1348,9 +1456,9 @@ func inStart(r *mon.Run, eng string, i int, c inCase, cache string, fx fixtures,
 		if err != nil {
 			r.Count("config_rejected_by_program:"+c.Form, 1)
 			r.Logf("%s %d: %+v refused: %v", eng, i, cfg, err)
-			return nil, false
+			return nil, false, err
 		}
-		return s, true
+		return s, true, nil
 	}
 	var last error
 	for try := 0; try < rounds443()*len(cands443); try++ {
@@ -1358,13 +1466,13 @@ func inStart(r *mon.Run, eng string, i int, c inCase, cache string, fx fixtures,
 		s, err := hk.Start(cfg)
 		if err == nil {
 			got443(r, cfg.Addr)
-			return s, true
+			return s, true, nil
 		}
 		last = err
 		switch {
 		case denied443(err):
 			unavailable443(r, fmt.Sprintf("%s %d", eng, i), err)
-			return nil, false
+			return nil, false, nil
 		case busy443(err):
 			r.Count("port_443_address_busy_or_missing", 1)
 			if (try+1)%len(cands443) == 0 {
@@ -1373,11 +1481,11 @@ func inStart(r *mon.Run, eng string, i int, c inCase, cache string, fx fixtures,
 		default:
 			r.Count("config_rejected_by_program:"+c.Form, 1)
 			r.Logf("%s %d: %+v refused: %v", eng, i, cfg, err)
-			return nil, false
+			return nil, false, err
 		}
 	}
 	unavailable443(r, fmt.Sprintf("%s %d", eng, i), last)
-	return nil, false
+	return nil, false, nil
 }
 
 func inCaseRun(r *mon.Run, eng string, fx fixtures, i int, c inCase) {
@@ -1400,6 +1508,14 @@ func inCaseRun(r *mon.Run, eng string, fx fixtures, i int, c inCase) {
 		}
 		r.Count("dated_cache_files:"+c.Cache, 1)
 	}
+	var cc *chainCache // the harness-made chain cache the next start finds
+	if c.Chain != nil {
+		var err error
+		if cc, err = writeChainCache(r, cache, *c.Chain); err != nil {
+			r.Inconclusive(fmt.Sprintf("%s %d: cannot prepare the chain cache %v: %v", eng, i, *c.Chain, err))
+			return
+		}
+	}
 	// expect: the key the cache holds as far as the harness knows (written by the harness, or
 	// served by the first start); every start must serve and advertise it
 	expect, expectWhy := cachedPin, "the harness wrote the cache (certificate "+c.Cache+")"
@@ -1408,16 +1524,27 @@ func inCaseRun(r *mon.Run, eng string, fx fixtures, i int, c inCase) {
 			mu443.Lock()
 			defer mu443.Unlock()
 		}
-		s, ok := inStart(r, eng, i, c, cache, fx, rng)
+		s, ok, serr := inStartE(r, eng, i, c, cache, fx, rng)
 		if !ok {
+			if cc != nil && serr != nil && strings.Contains(serr.Error(), "certificate") {
+				// the program does not take this cache: it need not (counted); only starts that come up are judged
+				r.Count("chain_cache_rejected_at_start_up", 1)
+				r.Count("chain_cache_rejected_at_start_up:"+cc.Spec.String(), 1)
+			}
 			return false
 		}
 		defer s.Stop()
-		pin, adv, replaced, ok := inOne(r, eng, s, i, k, c, cache, rng)
+		pin, adv, replaced, newChain, ok := inOne(r, eng, s, i, k, c, cc, cache, rng)
 		if !ok {
 			return false
 		}
 		r.Eval(1) // every start is one evaluated case
+		if cc != nil {
+			chainStarted(r, eng, cc, pin, k > 0)
+		}
+		if replaced != "" {
+			cc = newChain
+		}
 		if k > 0 {
 			r.Count("restarts_compared", 1)
 		}
@@ -1437,6 +1564,11 @@ func inCaseRun(r *mon.Run, eng string, fx fixtures, i int, c inCase) {
 		if replaced != "" {
 			expect, expectWhy = replaced, fmt.Sprintf("the cache was replaced by the harness while start %d was running", k)
 			r.Count("restarts_after_cache_replacement", int64(b2i(k+1 < c.Starts)))
+			if newChain != nil {
+				// which key the program takes from a file it did not write is not judged here:
+				// the later starts are held against what the first of them serves
+				expect, expectWhy = "", ""
+			}
 		}
 		return true
 	}
@@ -1468,10 +1600,10 @@ func opText(s *hk.Server, from int) string {
 
 // inOne judges one running in-process server.  replaced: the pin of the key
 // the cache was replaced with during this start ("" = not replaced).
-func inOne(r *mon.Run, eng string, s *hk.Server, i, k int, c inCase, cache string, rng *rand.Rand) (pin, adv, replaced string, ok bool) {
+func inOne(r *mon.Run, eng string, s *hk.Server, i, k int, c inCase, cc *chainCache, cache string, rng *rand.Rand) (pin, adv, replaced string, newChain *chainCache, ok bool) {
 	r.Count("inproc_servers", 1)
 	r.Count("config_listen_form:"+c.Form, 1)
-	j := &judge{r: r, eng: eng, idx: i, ctx: map[string]any{"config": c, "start": k, "listening_on": s.Addr}}
+	j := &judge{r: r, eng: eng, idx: i, chain: cc, ctx: map[string]any{"config": c, "start": k, "listening_on": s.Addr}}
 	if c.Cache == "shared-empty" {
 		// two listeners started together on one empty cache: whatever one of them advertises
 		// that it does not serve is there because the other one changed the cache under it
@@ -1564,7 +1696,7 @@ func inOne(r *mon.Run, eng string, s *hk.Server, i, k int, c inCase, cache strin
 		// the cache changes under the running listener
 		mark2 := len(s.Log.Snapshot())
 		var okc bool
-		replaced, okc = j.afterCacheChange(cache, hosts, bound, target, all, c.Tmpl == "custom", rng, func(j2 *judge) {
+		replaced, newChain, okc = j.afterCacheChange(cache, hosts, bound, target, all, c.Tmpl == "custom", rng, c.Repl, func(j2 *judge) {
 			if _, okm := s.Mark(fmt.Sprintf("C05-MARK2-%d-%d", i, k)); okm {
 				for _, f := range parseOperatorText(opText(s, mark2), 0).FPs {
 					j2.fp(siteOther, f.FP, strings.TrimSpace(f.Line))
@@ -1584,7 +1716,7 @@ func inOne(r *mon.Run, eng string, s *hk.Server, i, k int, c inCase, cache strin
 		kind := eng + ":" + c.Cache
 		r.Sample(kind, map[string]any{"index": i, "config": c, "listening_on": s.Addr, "served_pins": j.served, "printed": printed})
 	}
-	return pin, adv, replaced, true
+	return pin, adv, replaced, newChain, true
 }
 
 // ---- engine "inproc-race": two listeners started together on one empty cache ---------------
@@ -1635,7 +1767,7 @@ func raceCaseRun(r *mon.Run, fx fixtures, i int) {
 		good := true
 		for n := 0; n < 2; n++ {
 			var okn bool
-			pins[n], advs[n], _, okn = inOne(r, engRace, srv[n], i, n, cs[n], cache, rng)
+			pins[n], advs[n], _, _, okn = inOne(r, engRace, srv[n], i, n, cs[n], nil, cache, rng)
 			good = good && okn
 		}
 		filePin := ""
@@ -1674,7 +1806,7 @@ func raceCaseRun(r *mon.Run, fx fixtures, i int) {
 // ---- Run ----------------------------------------------------------------------------------------
 
 func Run(r *mon.Run) {
-	r.Rule = "engine binary: the real -race binary on a pty, configurations drawn from listen form {127.0.0.1:0, 127.0.0.1, [::1]:0, ::1, 0.0.0.0:0, :0, [::]:0, fixed free port v4/v6} (stratified over the index) x -callback-address {none, host, host:port, several} x -serve-files-from {off, dir, file} x -ipv6-one-liners x template {default, custom with two uses of .PubkeyFP} x certificate cache {off, fresh file, file of an earlier run, 2-4 restarts on one file, default path under a private HOME}; for every run the bound port is read from the child's listening socket (/proc/<pid>/fd inode in /proc/<pid>/net/tcp{,6}), the served leaf is taken from TLS handshakes (with and without SNI, on every printed address that is an address of the listener) and hk.Pin computed by the harness; every sha256//... text on the terminal (file one-liners, shell one-liners, the help re-printed after a fake shell died) and in 2-3 /c bodies (Host, c2 query, c2 header, HTTP/1.0+SNI variants) must equal it and be std-base64 of 32 bytes; every printed one-liner must name the bound port (a one-liner without a port names 443) or a port the user gave for that host, and a host the user gave only WITH a port (not an address of this machine) must keep exactly that port; real /usr/bin/curl is run with each printed command verbatim (must exit 0; 200 for /c) and with one bit of the pin flipped (must exit 90), directly when the printed address belongs to the listener, else with --connect-to; restarts on one cache must serve and advertise one pin; in about half of the runs one printed shell one-liner that names an address of the listener is run verbatim under /bin/sh (real curl fetches /c, the script's two curl commands carry a real shell, 'exit' ends it) and the help printed afterwards is judged too. engine inproc: hsrv.New in-process, same text/handshake/script/port/restart oracles without curl. THE CACHE CHANGES UNDER A RUNNING LISTENER (every inproc case with a cache file, in one start of its restart sequence drawn per case; every binary case with a cache file, in its last run): after the start-up checks the cache file is replaced through sstls.SaveCertificate by a harness-made currently-valid certificate with another key, then fresh handshakes without SNI (every address) and with SNI (two names), /c fetched plainly and as HTTP/1.0 on an SNI connection (binary: also real curl run as printed on a one-liner that names a host, i.e. with SNI): every fingerprint the process has shown so far and embeds now must equal the pin of every key presented now (key class cache-changed-under-listener); the starts after the replacement must serve and advertise the replaced cache's key. engine inproc-race: two servers started at the same moment (one gate) on one cache path that does not exist yet, up to 5 attempts until they really made different keys; each one's fingerprints must be the pin of what IT presents without and with SNI. PORT 443 (engines inproc-443 and binary-443; the harness is root): the listener is bound to 127.0.0.1:443 | 127.0.0.2:443 | 127.0.0.3:443 | [::1]:443 (first one free, rotation by index; one such listener at a time per run, other processes' use = next candidate / bounded wait, none available = counted + inconclusive note) x callback addresses with explicit ports 8888/8443/444/443 and without (fixed list, in turn) x files x cache (with the cache change); same oracles. distinct = configuration signature + served pin; all non-trivial (each has at least one advertised fingerprint compared with a handshake)"
+	r.Rule = "engine binary: the real -race binary on a pty, configurations drawn from listen form {127.0.0.1:0, 127.0.0.1, [::1]:0, ::1, 0.0.0.0:0, :0, [::]:0, fixed free port v4/v6} (stratified over the index) x -callback-address {none, host, host:port, several} x -serve-files-from {off, dir, file} x -ipv6-one-liners x template {default, custom with two uses of .PubkeyFP} x certificate cache {off, fresh file, file of an earlier run, 2-4 restarts on one file, default path under a private HOME}; for every run the bound port is read from the child's listening socket (/proc/<pid>/fd inode in /proc/<pid>/net/tcp{,6}), the served leaf is taken from TLS handshakes (with and without SNI, on every printed address that is an address of the listener) and hk.Pin computed by the harness; every sha256//... text on the terminal (file one-liners, shell one-liners, the help re-printed after a fake shell died) and in 2-3 /c bodies (Host, c2 query, c2 header, HTTP/1.0+SNI variants) must equal it and be std-base64 of 32 bytes; every printed one-liner must name the bound port (a one-liner without a port names 443) or a port the user gave for that host, and a host the user gave only WITH a port (not an address of this machine) must keep exactly that port; real /usr/bin/curl is run with each printed command verbatim (must exit 0; 200 for /c) and with one bit of the pin flipped (must exit 90), directly when the printed address belongs to the listener, else with --connect-to; restarts on one cache must serve and advertise one pin; in about half of the runs one printed shell one-liner that names an address of the listener is run verbatim under /bin/sh (real curl fetches /c, the script's two curl commands carry a real shell, 'exit' ends it) and the help printed afterwards is judged too. engine inproc: hsrv.New in-process, same text/handshake/script/port/restart oracles without curl. THE CACHE CHANGES UNDER A RUNNING LISTENER (every inproc case with a cache file, in one start of its restart sequence drawn per case; every binary case with a cache file, in its last run): after the start-up checks the cache file is replaced through sstls.SaveCertificate by a harness-made currently-valid certificate with another key, then fresh handshakes without SNI (every address) and with SNI (two names), /c fetched plainly and as HTTP/1.0 on an SNI connection (binary: also real curl run as printed on a one-liner that names a host, i.e. with SNI): every fingerprint the process has shown so far and embeds now must equal the pin of every key presented now (key class cache-changed-under-listener); the starts after the replacement must serve and advertise the replaced cache's key. engine inproc-race: two servers started at the same moment (one gate) on one cache path that does not exist yet, up to 5 attempts until they really made different keys; each one's fingerprints must be the pin of what IT presents without and with SNI. PORT 443 (engines inproc-443 and binary-443; the harness is root): the listener is bound to 127.0.0.1:443 | 127.0.0.2:443 | 127.0.0.3:443 | [::1]:443 (first one free, rotation by index; one such listener at a time per run, other processes' use = next candidate / bounded wait, none available = counted + inconclusive note) x callback addresses with explicit ports 8888/8443/444/443 and without (fixed list, in turn) x files x cache (with the cache change); same oracles. CACHES THE PROGRAM DID NOT WRITE ITSELF (engines inproc-chain: 2-4 starts per case, and binary-chain: 2-3 runs of the real binary per case with the real-curl checks, explicit cache path and default path under a private HOME): before the first start the harness writes the cache archive itself: cert section = a CA hierarchy made with crypto/x509, LEAF FIRST then its issuers (1, 2 or 3 certificates, stratified over the index), key section = the leaf's key; key types of leaf (stratified) and issuers (drawn) from ECDSA P-256 / RSA 2048 / Ed25519 / ECDSA P-384; between the PEM blocks nothing | blank lines | the text openssl s_client -showcerts prints | openssl pkcs12 bag attributes | CRLF line ends; private key as PKCS#8 or as EC/RSA PRIVATE KEY; archive laid out cert-key | key-cert | with a comment and other sections around; during one start (inproc) / under the last run (binary) the cache is replaced by another such chain, which the later starts load. A start-up error on such a file is counted and not judged (the program need not take it), which key of the file the program uses is counted and not judged (C08); every start that comes up is judged with the same oracles as everywhere: every advertised fingerprint equals the pin of the first certificate the listener presents in handshakes, real curl run as printed connects and with one bit of the pin flipped exits 90, restarts on the unchanged cache serve and advertise one pin. distinct = configuration signature + served pin; all non-trivial (each has at least one advertised fingerprint compared with a handshake)"
 	r.Assumptions = []string{
 		"callback host names (cb.example ...) do not resolve here: their one-liners are exercised with curl --connect-to, which checks the same pin against the same listener",
 		"link-local IPv6 one-liners carry no zone and cannot be connected to directly; same treatment",
@@ -1682,6 +1814,7 @@ func Run(r *mon.Run) {
 		"exit status of the binary after Ctrl+D other than 0 is reported as inconclusive (C20 owns it)",
 		"a one-liner printed without a port (https://host/...) names the default https port 443: on a listener bound to 443 it is accepted like https://host:443/...",
 		"after the cache file changed under a running listener the listener may keep its key or adopt the new one; only 'advertised == presented' is demanded (for what was printed before the change too: the operator still uses those lines)",
+		"a certificate cache whose cert section holds the leaf followed by its issuers (a 'fullchain' as a CA hands it out), with any of the key types crypto/tls serves, with text between the PEM blocks that PEM readers skip, is a legitimate cache: the statement quantifies over every cached key pair and does not say who wrote the cache; whether the program accepts such a file is not judged, only what it advertises once it listens",
 		"port 443 on the loopback addresses is free or only briefly taken by other runs of this check; if it cannot be bound at all the port-443 floors make the run inconclusive",
 	}
 	fx := makeFixtures(r.Work)
@@ -1724,6 +1857,26 @@ func Run(r *mon.Run) {
 			}
 			inCaseRun(r, engIn, fx, i, genInCase(r, i))
 		})
+	}
+	if r.WantEngine(engInChain) {
+		mon.Parallel(r.N(28, 196), 8, func(i int) {
+			if r.Want(engInChain, i) {
+				inCaseRun(r, engInChain, fx, i, genInChainCase(r, i))
+			}
+		})
+	}
+	if r.WantEngine(engBinChain) {
+		bin, err := crs.Build(r.Work, "")
+		if err != nil {
+			r.Inconclusive("cannot build the binary: " + err.Error())
+		} else {
+			mon.Parallel(r.N(8, 56), 8, func(i int) {
+				if r.Want(engBinChain, i) {
+					binCaseRun(r, engBinChain, bin, fx, i, genBinChainCase(r, i))
+				}
+			})
+			r.Logf("binary-chain engine done: %d starts on a chain cache", r.Counter("chain_cache_starts:"+engBinChain))
+		}
 	}
 	if r.WantEngine(engIn443) {
 		// port 443 is used by one listener at a time (mu443); two workers overlap the rest
@@ -1772,6 +1925,8 @@ func Run(r *mon.Run) {
 		r.Floor("oneliners_with_user_port_other_than_443_on_443_listener", q(20, 100))
 		r.Floor("oneliners_naming_bound_port_on_443_listener", q(20, 100))
 	}
+	// caches the program did not write itself
+	chainFloors(r, q)
 	r.Floor("handshakes", q(150, 1500))
 	r.Floor("bound_port_from_proc", q(16, 200))
 	r.Floor("curl_pinned_ok", q(20, 300))
